@@ -45,7 +45,7 @@ func init() {
 				stats.skipped++
 			}
 			if key != "" {
-				fmt.Fprintf(out, "FAIL %s %s %s | %s\n", f[0], f[1], key, strings.ReplaceAll(detail, "\n", "\\n"))
+				fmt.Fprintf(out, "FAIL %s %s %s tags=%s | %s\n", f[0], f[1], strings.ReplaceAll(key, " ", "_"), findingTags(e, x), strings.ReplaceAll(detail, "\n", "\\n"))
 			}
 		})
 		var ts []string
@@ -348,6 +348,41 @@ func init() {
 			}); why != "" {
 				return "walk-panic", why, false
 			}
+			// traversal with pruning, and Preorder loops left early (after 1, 2, half of the nodes)
+			if why := safely("Inspect with pruning", func() {
+				k := 0
+				ast.Inspect(root, func(ast.Node) bool { k++; return k%3 != 0 })
+			}); why != "" {
+				return "walk-panic", why, false
+			}
+			for _, stop := range []int{1, 2, len(ns)/2 + 1} {
+				stop := stop
+				if why := safely("Preorder left early", func() {
+					k := 0
+					for range ast.Preorder(root) {
+						k++
+						if k >= stop {
+							break
+						}
+					}
+				}); why != "" {
+					return "preorder-break-panic", why, false
+				}
+			}
+		}
+		if e.list && len(roots) > 0 {
+			if why := safely("PreorderMany/WalkMany", func() {
+				ast.WalkMany(roots, nopVisitor{})
+				k := 0
+				for range ast.PreorderMany(roots) {
+					k++
+					if k >= 2 {
+						break
+					}
+				}
+			}); why != "" {
+				return "walk-panic", why, false
+			}
 		}
 		return "", "", false
 	}
@@ -638,8 +673,12 @@ func init() {
 			if !ok {
 				return "nil-error-on-unlexable-input", "", false
 			}
-			for _, t := range toks {
+			for ti, t := range toks {
 				if t.Kind == token.TokenEOF || (e.list && t.Kind == ";") {
+					continue
+				}
+				// a trailing comma of a select list (documented as optional) is consumed but belongs to no node
+				if t.Kind == "," && ti+1 < len(toks) && (toks[ti+1].Kind == token.TokenEOF || toks[ti+1].Kind == ";") {
 					continue
 				}
 				in := false
@@ -838,4 +877,46 @@ func init() {
 		}
 		return "", "", false
 	}
+}
+
+// findingTags names the structural features of the parsed input that recorded known findings are keyed on
+// (see /verif/known_findings.json); "-" when none is present.
+func findingTags(e *entryPoint, x string) string {
+	var tags []string
+	add := func(t string) {
+		for _, u := range tags {
+			if u == t {
+				return
+			}
+		}
+		tags = append(tags, t)
+	}
+	r := callEntry(e, "", x)
+	if r.panicked {
+		return "-"
+	}
+	for _, ni := range allNodes(r.nodes) {
+		switch n := ni.node.(type) {
+		case *ast.Join:
+			if n.Method != "" {
+				add("join-method")
+			}
+		case *ast.CreateTable:
+			if !n.PrimaryKeyRparen.Invalid() && len(n.PrimaryKeys) == 0 {
+				add("empty-primary-key")
+			}
+		case *ast.ChangeStreamForAll:
+			add("change-stream-for-all")
+		case *ast.BadNode:
+			for _, t := range n.Tokens {
+				if t.Raw == "" && len(t.Comments) > 0 {
+					add("bad-unterminated-comment")
+				}
+			}
+		}
+	}
+	if len(tags) == 0 {
+		return "-"
+	}
+	return strings.Join(tags, ",")
 }
